@@ -33,8 +33,8 @@ pub fn run(case: &Value, _params: &Params, out: &mut Vec<Value>) {
             let v = jint(case, "v"); // 0 = missing
             let o: Option<i32> = if v == 0 { None } else { Some(v as i32) };
             let f: f64 = if v == 0 { f64::NAN } else { v as f64 };
-            let f_from_opt: i64 = { let r = f64::from_not_nan_opt(f.try_as_not_nan().cloned()); if r.is_nan() { 0 } else { r as i64 } };
-            let f_from_ref: i64 = { let r = *f64::from_not_nan_ref_opt(f.try_as_not_nan()); if r.is_nan() { 0 } else { r as i64 } };
+            let f_from_opt: i64 = { let r = f64::from_not_nan_opt(f.try_as_not_nan().cloned()); if f64::is_nan(r) { 0 } else { r as i64 } };
+            let f_from_ref: i64 = { let r = *f64::from_not_nan_ref_opt(f.try_as_not_nan()); if f64::is_nan(r) { 0 } else { r as i64 } };
             let o_from_opt: i64 = Option::<i32>::from_not_nan_opt(if v == 0 { None } else { Some(NN::new(v as i32)) }).map(|t| t as i64).unwrap_or(0);
             out.push(json!({"ev": "maybenan", "v": v,
                 "o_is_nan": o.is_nan(), "o_try": o.try_as_not_nan().map(|t| **t as i64).unwrap_or(0),
